@@ -13,7 +13,9 @@ mod forms_ratio;
 mod forms_float;
 #[path = "../ops_forms2.rs"]
 mod ops_forms2;
+#[path = "../ops_forms3.rs"]
+mod ops_forms3;
 
 fn main() {
-    verif_harness::run_main(&[ops_forms::dispatch, ops_forms2::dispatch]);
+    verif_harness::run_main(&[ops_forms::dispatch, ops_forms2::dispatch, ops_forms3::dispatch]);
 }
